@@ -5,6 +5,7 @@ import (
 	"fmt"
 	"os"
 	"path/filepath"
+	"runtime/debug"
 	"sort"
 	"strings"
 	"time"
@@ -184,6 +185,9 @@ func worldMain(args []string) int {
 	if req.LockSwank {
 		lockSwank()
 	}
+	// a runaway recursion is to end the process quickly, not after filling
+	// a gigabyte of stack
+	debug.SetMaxStack(64 << 20)
 	scope := slip.NewScope()
 	var resp Resp
 	flush := func() {
@@ -222,7 +226,7 @@ func runWorld(dir string, req *Req) (wr WorldResult) {
 	}
 	var res fw.SubResult
 	for attempt := 0; attempt < 2; attempt++ {
-		res = fw.RunSub("c19-world", []string{rf, of}, nil, dir, 120*time.Second)
+		res = fw.RunSub("c19-world", []string{rf, of}, nil, dir, 45*time.Second)
 		if !res.TimedOut {
 			break
 		}
